@@ -469,8 +469,20 @@ func TestUpdates(t *testing.T) {
 				names = append(names, chars(n))
 			}
 			m := reported()
-			out.Emit(map[string]interface{}{"ev": "uprobe", "h": h.H, "step": step, "site": h.Site, "names": names, "obs": obs,
-				"cfg": filt{m.Prefix, m.NotPrefix, m.Sub, m.NotSub, m.Regex, m.NotRegex}})
+			rec := map[string]interface{}{"ev": "uprobe", "h": h.H, "step": step, "site": h.Site, "names": names, "obs": obs,
+				"cfg": filt{m.Prefix, m.NotPrefix, m.Sub, m.NotSub, m.Regex, m.NotRegex}}
+			if !onDest {
+				// the same names once more as aggregation output (Table.DispatchAggregate: routes only): a route filter
+				// decides on the name whichever way the line reaches the routes, and on the options it has NOW
+				obsagg := make([][]int64, 0, len(h.Names))
+				for _, n := range h.Names {
+					before := rig.counts()
+					rig.tbl.DispatchAggregate([]byte(n + " 1 1"))
+					obsagg = append(obsagg, delta(before, rig.counts()))
+				}
+				rec["obsagg"] = obsagg
+			}
+			out.Emit(rec)
 		}
 		out.Emit(map[string]interface{}{"ev": "uhist", "h": h.H, "site": h.Site, "f": h.Ast, "go": h.F})
 		probe(0)
